@@ -12,3 +12,9 @@ let run id ops out = match ops with
   | "L:bulk" :: rest -> go 2 "USBBulk" id rest out
   | _ -> failwith "Lusbsub: first op must be L:control, L:interrupt or L:bulk"
 let registered = Registry.register "Lusbsub" run
+let coq_layer (l : usbsub) = Printf.sprintf "(mkUb %s %s)" (coq_zlist l.ub_contents) (coq_zlist l.ub_payload)
+let registered_coq = Registry.register_coq "Lusbsub" ("From GP Require Import Base LusbsubModel.\n",
+  (fun idx ops out ->
+    let kind, name = match ops with "L:interrupt" :: _ -> 1, "USBInterrupt" | "L:bulk" :: _ -> 2, "USBBulk" | _ -> 0, "USBControl" in
+    Lsmallutil.to_coq_generic { Lsmallutil.cd = desc kind name; coq_layer; g_dec = Printf.sprintf "(ub_decode_into %d)" kind; g_fresh = "ub_fresh"; g_ser = ""; g_rp = "ub_render_panics" }
+      idx (match ops with _ :: rest -> rest | [] -> []) out))
